@@ -34,6 +34,8 @@ def dec(v):
 def step(self, op):
     self.step_no += 1
     self.failed_call_ctx = None
+    self.last_exc = None
+    self.candidate = None
     kind = op['op']
     if self.diverged: return 'diverged'
     if self.session is None:
@@ -130,6 +132,7 @@ def _modify(self, op):
     if kind != 'create' and op['oid'] not in w.objs: return 'skipped_dead_target'
     # 1. model prediction on a copy
     m2 = w.copy()
+    self.candidate = m2     # (lifecycle hooks that run during this call apply their edits to both states, see C33)
     refuse = None
     stale = _has_stale(op)
     try:
@@ -339,6 +342,8 @@ def _reset_after_rollback(self):
     self.tainted = None
     self.seed_reassigned = set()
     self.seed_deleted = set()
+    self.failed_flush_continued = False
+    self.dbstate = None
     self.working = self.committed.copy()
     for oid, p in self.h.items(): self.stale[oid] = p
     self.h = {}; self.rev = {}
@@ -396,6 +401,7 @@ def _tx(self, op):
                 self.pending_dups = bool(self.working.dups())
                 return 'ok'
             self.unflushed = set()
+            self.dbstate = self.working.copy()
             if cycle: self.c('fkorder.cycle_flushed_ok')
             if kind in ('commit', 'end'):
                 self.committed = self.working.copy()
@@ -409,7 +415,21 @@ def _tx(self, op):
         self.errlog.append((kind, name, str(exc)[:160]))
         msg = str(exc)
         if 'FOREIGN KEY constraint failed' in msg:
-            self.report('fkorder', 'foreign_key_error_on_flush', {'op': kind, 'exc': name, 'msg': msg[:200], 'cycle': cycle})
+            stmts = [e for e in self.rec.events if e['phase'] == 'call' and e['kind'] in ('execute', 'executemany')]
+            failed_sql = (stmts[-1]['sql'] or '').strip()[:80] if stmts else ''
+            # was a row deleted while the database still held a reference to it from a row that the same flush
+            # deletes later or re-points (its in-session reference was changed before)?
+            dbstate = self.dbstate if self.dbstate is not None else self.committed     # what the database holds (last full flush)
+            gone = set(dbstate.objs) - set(self.working.objs)
+            referenced = False
+            for xo, x in dbstate.objs.items():
+                cls = self.cls[x.ent]
+                for a in cls._attrs_:
+                    if a.is_collection or not a.reverse or not a.columns: continue
+                    y = x.vals.get(a.name)
+                    if y in gone and (xo in gone or self.working.objs[xo].vals.get(a.name) != y): referenced = True
+            self.report('fkorder', 'foreign_key_error_on_flush', {'op': kind, 'exc': name, 'msg': msg[:200], 'cycle': cycle,
+                                                                  'failed_sql': failed_sql, 'deleted_row_still_referenced_in_db': referenced})
         if name == 'UnresolvableCyclicDependency':
             if cycle: self.c('fkorder.cycle_refused')
             else: self.report('fkorder', 'cyclic_dependency_error_without_cycle', {'op': kind, 'msg': msg[:200]})
@@ -421,6 +441,7 @@ def _tx(self, op):
             # conflict is still pending, so the next flush / commit has to report it again
             self.c('conflict.kept_going_after_failed_flush')
             self.pending_dups = True
+            self.failed_flush_continued = True
             return 'raised_conflict_kept_going'
         # the session's transaction is over: make sure it is, then nothing of it may be visible
         try:
@@ -647,6 +668,7 @@ def install():
     Engine.pending_taint_stop = False
     Engine.failed_call_ctx = None
     Engine.tainted_ctx = None
+    Engine.dbstate = None
     Engine._learn_auto_pks = _learn_auto_pks
     Engine._judge_read = _judge_read
     Engine._obs = _obs
